@@ -17,6 +17,11 @@ def cases(tier):
         for backend in ("sql", "kv"):
             for S in Q.subsets(names):
                 out.append((backend, S, tier, uname))
+    # two workers on one database: the events are accepted by one worker, the REQs are answered by another one that was started on the
+    # empty database (what a worker keeps in memory about the database must not stand in for the database)
+    for S in Q.subsets(Q.members(tier, "U1")):
+        if len(S) <= 2 or len(S) == len(Q.members(tier, "U1")):
+            out.append(("sql2", S, tier, "U1"))
     return out
 
 
@@ -86,7 +91,7 @@ def run_case(case):
     backend, S, tier = case[:3]
     uname = case[3] if len(case) > 3 else "U1"
     uni = Q.UNIVERSES[uname]()
-    sess = seq.session(backend)
+    sess = seq.session("sql", second_worker=True) if backend == "sql2" else seq.session(backend)
     Q.build_store(sess, S, uni)
     store_events = [uni[nm] for nm in S]
     byid = {e["id"]: nm for nm, e in uni.items()}
@@ -132,7 +137,7 @@ def coverage(tier, agg):
         "stores_per_backend": {"U1": 2 ** len(Q.members(tier)), "U2": 2 ** len(Q.members(tier, "U2"))},
         "U2": "second universe of byte-order neighbours (tag values extending a requested value through NUL, two requested values on one event, "
               "equal timestamps) with its own filter language",
-        "backends": ["sql", "kv"],
+        "backends": ["sql", "kv", "sql2 = events accepted by one SQL worker, REQs answered by a second worker on the same database file (stores of <= 2 members and the full store)"],
     }
 
 
